@@ -280,7 +280,8 @@ class FormulaManager(object):
                                  "or both REAL")
 
         if base.is_constant():
-            val = cast(Union[int, fractions.Fraction], base.constant_value()) ** cast(Union[int, fractions.Fraction], exponent.constant_value())
+            # Use Fractions: a negative exponent on an int would yield a float
+            val = Fraction(cast(Union[int, fractions.Fraction], base.constant_value())) ** cast(Union[int, fractions.Fraction], exponent.constant_value())
             return self.Real(val)
         return self.create_node(node_type=op.POW, args=(base, exponent))
 
